@@ -303,8 +303,10 @@ def run(case):
         ref = reference(case, prm)
         must, may, reasons, sel = ref
     mol, key_of = build(case)
+    # one processor object for both presentations of the case: nothing may be carried over from one molecule to the next
+    processor = ApplyRubberBand(**kwargs)
     with capture_logs() as logs:
-        ApplyRubberBand(**kwargs).run_molecule(mol)
+        processor.run_molecule(mol)
     rb, others = extract(mol, key_of)
     if len(others) != (1 if len(atoms) >= 2 else 0) or (others and others[0].parameters != ['1', '0.35', '1250']):
         raise Violation('foreign-bond-changed', 'pre-existing bonds changed: %r' % (others,))
@@ -341,7 +343,7 @@ def run(case):
     t = case['transform']
     order = sorted(range(len(atoms)), key=lambda i: (t['perm'][i % len(t['perm'])], i))
     mol2, key_of2 = build(case, order=order, rot=t['rot'], shift=t['shift'], key0=t['key0'], keystep=t['keystep'])
-    ApplyRubberBand(**kwargs).run_molecule(mol2)
+    processor.run_molecule(mol2)
     rb2, _ = extract(mol2, key_of2)
     diff = (set(rb) ^ set(rb2)) - may
     if diff:
